@@ -183,41 +183,67 @@ def run_search(tree):
 def store_result(tree):
     fn = find_def(tree, 'SearchResult.store_result')
     body = _body(fn)
-    if len(body) != 2 or not isinstance(body[1], ast.If) or \
-            ast.unparse(body[0]) != 'num_groups = len(result.groups())' or \
-            ast.unparse(body[1].test) != 'num_groups':
+    if len(body) < 2 or not isinstance(body[1], ast.If) or \
+            ast.unparse(body[0]) != 'num_groups = len(result.groups())':
         raise Untranslatable("store_result: expected `num_groups = "
-                             "len(result.groups())` then `if num_groups:`")
+                             "len(result.groups())` then an `if` on it")
+    test = body[1].test
     thn = _strip_logs(body[1].body)
     els = _strip_logs(body[1].orelse)
-    if len(thn) != 1 or not isinstance(thn[0], ast.For) or \
-            ast.unparse(thn[0].iter.func) != 'range' or \
-            len(thn[0].iter.args) != 2 or \
-            ast.unparse(thn[0].target) != 'i' or \
-            [ast.unparse(x) for x in _strip_logs(thn[0].body)] != \
-            ['self._save_part(i, result.group(i))']:
+    rest = _strip_logs(body[2:])
+    if rest:
+        # guard clause: `if t: A; return` followed by B  ==  if t: A else: B
+        if els or not thn or not isinstance(thn[-1], ast.Return) or \
+                thn[-1].value is not None:
+            raise Untranslatable("store_result: statements after the `if` "
+                                 "need a guard clause ending in `return`")
+        thn, els = thn[:-1], rest
+    if any(isinstance(n, ast.Return) for br in (thn, els) for n in br):
+        raise Untranslatable("store_result: unexpected return")
+    names = {'num_groups': 'num_groups'}
+    cond = Tr(names=names).cond(test)      # condition of the FIRST branch
+
+    def is_loop(br):
+        return len(br) == 1 and isinstance(br[0], ast.For)
+    if is_loop(thn) and not is_loop(els):
+        loop, whole, when = thn[0], els, cond
+    elif is_loop(els) and not is_loop(thn):
+        loop, whole, when = els[0], thn, f"(negb {cond})"
+    else:
+        raise Untranslatable("store_result: one branch must be the loop "
+                             "over the groups, the other the whole match")
+    if not (isinstance(loop.iter, ast.Call)
+            and ast.unparse(loop.iter.func) == 'range'
+            and len(loop.iter.args) == 2 and not loop.orelse
+            and isinstance(loop.target, ast.Name)):
+        raise Untranslatable("store_result: expected `for i in range(a, b)`")
+    v = loop.target.id
+    if [ast.unparse(x) for x in _strip_logs(loop.body)] != \
+            [f'self._save_part({v}, result.group({v}))']:
         raise Untranslatable("store_result: expected `for i in range(a, b): "
                              "self._save_part(i, result.group(i))`")
-    names = {'num_groups': 'num_groups'}
-    t_first, _ = Tr(names=names).expr(thn[0].iter.args[0])
-    t_stop, _ = Tr(names=names).expr(thn[0].iter.args[1])
-    if len(els) != 1 or not isinstance(els[0], ast.Expr) or \
-            not isinstance(els[0].value, ast.Call) or \
-            ast.unparse(els[0].value.func) != 'self._save_part' or \
-            len(els[0].value.args) != 2:
-        raise Untranslatable("store_result: expected else: "
+    t_first, _ = Tr(names=names).expr(loop.iter.args[0])
+    t_stop, _ = Tr(names=names).expr(loop.iter.args[1])
+    if len(whole) != 1 or not isinstance(whole[0], ast.Expr) or \
+            not isinstance(whole[0].value, ast.Call) or \
+            ast.unparse(whole[0].value.func) != 'self._save_part' or \
+            len(whole[0].value.args) != 2:
+        raise Untranslatable("store_result: expected the other branch to be "
                              "self._save_part(k, result.group(k))")
-    a0, a1 = els[0].value.args
+    a0, a1 = whole[0].value.args
     if ast.unparse(a1) != f"result.group({ast.unparse(a0)})":
-        raise Untranslatable("store_result: else branch must save "
-                             "result.group(k) as part k")
+        raise Untranslatable("store_result: the whole-match branch must "
+                             "save result.group(k) as part k")
     t_whole, _ = Tr(names=names).expr(a0)
     return (
-        f"(* for i in {ast.unparse(thn[0].iter)} *)\n"
+        f"(* for i in {ast.unparse(loop.iter)} *)\n"
         f"Definition store_range_first (num_groups : Z) : Z := {t_first}.\n"
         f"Definition store_range_stop (num_groups : Z) : Z := {t_stop}.\n"
-        f"(* {ast.unparse(els[0])} *)\n"
-        f"Definition store_whole_index (num_groups : Z) : Z := {t_whole}.\n")
+        f"(* {ast.unparse(whole[0])} *)\n"
+        f"Definition store_whole_index (num_groups : Z) : Z := {t_whole}.\n"
+        f"(* the loop branch is taken when (source test: "
+        f"{ast.unparse(test)}) *)\n"
+        f"Definition store_loop_when (num_groups : Z) : bool := {when}.\n")
 
 
 def apply_single(tree):
